@@ -322,9 +322,37 @@ fn replay_serial(s: &mut Summary, c: &Value) {
     s.eval_if(sa != sb, &format!("s{sa:?}{sb:?}"));
 }
 
+/// decimal text beyond the 159 bits a serial number can hold: refused, never folded back into range
+fn serial_text_limits(s: &mut Summary) {
+    let pow2 = |bit: usize, add: u8| -> Vec<u8> { let n = bit / 8 + 1; let mut v = vec![0u8; n]; v[0] = 1 << (bit % 8); v[n - 1] |= add; v };
+    let mut cases: Vec<(Vec<u8>, bool)> = vec![
+        ({ let mut v = vec![0xFFu8; 20]; v[0] = 0x7F; v }, true),          // 2^159 - 1: the largest serial number
+        (pow2(159, 0), false), ({ vec![0xFFu8; 20] }, false),                // 2^159, 2^160 - 1
+        (pow2(160, 0), false), (pow2(160, 4), false), (pow2(160, 0x7F), false),
+        (pow2(161, 1), false), ({ let mut v = pow2(161, 7); v[0] |= 1; v }, false), (pow2(167, 5), false), (pow2(200, 9), false),
+    ];
+    cases.push((vec![0x09; 26], false));
+    for (bytes, ok) in cases {
+        let text = big_dec(&bytes);
+        match guarded(|| Serial::from_str(&text)) {
+            Err(m) => s.violation("serial:panic", format!("Serial::from_str('{text}') panicked: {m}"), json!({"text": text})),
+            Ok(r) => {
+                if r.is_ok() != ok {
+                    s.violation(if ok { "serial:decimal-roundtrip" } else { "serial:accepts-overlong-text" },
+                                format!("Serial::from_str('{text}') ({} bits) = {:?}", bytes.len() * 8, r.map(|x| x.to_string()).map_err(|e| e.to_string())), json!({"text": text}));
+                } else if let Ok(x) = r {
+                    if x.to_string() != text { s.violation("serial:decimal", format!("'{text}' parses and prints as '{x}'"), json!({"text": text})); }
+                }
+            }
+        }
+        s.evals(1);
+    }
+}
+
 pub fn replay(args: &[String]) {
     let cases = read_cases(&args[0]);
     let mut s = Summary::new();
+    serial_text_limits(&mut s);
     for c in &cases {
         match c["op"].as_str().unwrap_or("") {
             "time" => replay_time(&mut s, c),
